@@ -114,7 +114,8 @@ impl HtxFile {
             //
             write_htxf_init_header(&mut file_nc.file, sig2, buckets_size)?;
             #[cfg(feature = "htx_bitmap")]
-            let off = NodePieceOffset::new(HTX_HEADER_SZ + buckets_size * 8 + buckets_size / 8);
+            let off =
+                NodePieceOffset::new(HTX_HEADER_SZ + buckets_size * 8 + (buckets_size + 7) / 8);
             #[cfg(not(feature = "htx_bitmap"))]
             let off = NodePieceOffset::new(HTX_HEADER_SZ + buckets_size * 8);
             //
@@ -389,22 +390,26 @@ impl VarFile {
                 self.seek_from_start(NodePieceOffset::new(bimap_start + bitmap_idx))?;
                 let mut idx = idx;
                 //
-                let mut byte_8 = 0;
-                while byte_8 == 0 && idx < buckets_size - 8 {
-                    byte_8 = self.read_u64_le()?;
+                // skips 64 buckets at a time, while 8 whole bytes of bitmap remain.
+                while idx + 8 * 8 <= buckets_size {
+                    let byte_8 = self.read_u64_le()?;
+                    if byte_8 != 0 {
+                        self.seek_back_size(NodePieceSize::new(
+                            std::mem::size_of_val(&byte_8) as u32,
+                        ))?;
+                        break;
+                    }
                     idx += 8 * 8;
                 }
-                if idx >= 8 * 8 {
-                    self.seek_back_size(NodePieceSize::new(std::mem::size_of_val(&byte_8) as u32))?;
-                    idx -= 8 * 8;
-                }
-                //
-                let mut byte = 0;
-                while byte == 0 && idx < buckets_size {
-                    byte = self.read_u8()?;
+                // skips 8 buckets at a time, while a whole byte of bitmap remains.
+                while idx + 8 <= buckets_size {
+                    let byte = self.read_u8()?;
+                    if byte != 0 {
+                        break;
+                    }
                     idx += 8;
                 }
-                idx - 8
+                idx
             } else {
                 idx
             }
